@@ -106,6 +106,7 @@ package internal
 //@ func (*poller).dispatch
 //@   prop C05, C03
 //@   requires pInv(p)
+//@   ensures [inv] pInv(p)
 //@   loop 1 invariant pInv(p) && len(p.posts) == old(len(p.posts)) && ptr(p.posts) == old(ptr(p.posts)) &&
 //@          (forall j :: 0 <= j && j < len(p.posts) ==> p.posts[j] == old(p.posts[j]))
 //@   // handlers still to run are the entry queue's, untouched, in order
@@ -115,3 +116,36 @@ package internal
 //@   assert call Unlock#1: len(p.posts) == 0 && alias(posts, old(p.posts))
 //@   // exactly once, in posting order: iteration i runs the i-th handler of the entry queue
 //@   assert call handler: handler == old(p.posts[i]) && handler != nil
+
+// Rely of Poll on the I/O handlers it dispatches (library reactors that end in user
+// callbacks): on return the poller is consistent and the slot of the batch entry being
+// processed still satisfies the slot invariant "an armed direction has a handler".
+//@ func fnparam:(*poller).Poll.Handlers
+//@   trusted
+//@   ensures pInv(p)
+//@   ensures armed(slot, PollerWriteEvent) ==> slot.Handlers[1] != nil
+
+//@ func (*poller).Poll
+//@   prop C01, C03
+//@   arith bv
+//@   requires pInv(p)
+//@   // kernel: epoll_wait returns at most maxevents entries, each carrying the *Slot that was
+//@   // registered; an armed direction always has a handler (precondition of SetRead/SetWrite)
+//@   assume def n: n <= len(p.events)
+//@   assume def slot: slot != nil && (armed(slot, PollerReadEvent) ==> slot.Handlers[0] != nil) &&
+//@          (armed(slot, PollerWriteEvent) ==> slot.Handlers[1] != nil)
+//@   loop 1 invariant pInv(p) && 0 <= i && n <= len(p.events)
+//@   // readable, hang-up or error on a descriptor with a read armed completes the read;
+//@   // likewise for writes: no armed operation is left behind when the peer goes away
+//@   assert at "events&slot.Events&PollerReadEvent == PollerReadEvent": (event.Mask & 25 != 0 && armed(slot, PollerReadEvent)) ==>
+//@          events&slot.Events&PollerReadEvent == PollerReadEvent
+//@   assert at "events&slot.Events&PollerWriteEvent == PollerWriteEvent": (events & 28 != 0 && armed(slot, PollerWriteEvent)) ==>
+//@          events&slot.Events&PollerWriteEvent == PollerWriteEvent
+//@   // a handler runs only for a direction that is armed right now (stale entries are filtered),
+//@   // and its interest is removed before it runs
+//@   assert call DelRead: armed(slot, PollerReadEvent)
+//@   assert call DelWrite: armed(slot, PollerWriteEvent)
+//@   assert call Handlers#1: !armed(slot, PollerReadEvent)
+//@   assert call Handlers#2: !armed(slot, PollerWriteEvent)
+//@   ensures [timeout] n == 0 && timeoutMs >= 0 && err == nil ==> false
+//@   ensures [count] err == nil ==> n >= 0
